@@ -7,6 +7,7 @@ from fractions import Fraction as Fr
 import numpy as np
 
 import common as C
+import layouts as L
 import fuzzylite as fl
 
 PID = "C04"
@@ -85,9 +86,11 @@ def oracle(case):
 
 def oracle_(case):
     """property oracle on the real implementation: documented formula, range, laws, elementwise arrays"""
+    if case["norm"] not in norms_cache():
+        return False, f"norm {case['norm']} is not registered"
+    if "as" in case:
+        return oracle_layouts(case)
     name, a, b = case["norm"], float(case["a"]), float(case["b"])
-    if name not in norms_cache():
-        return False, f"norm {name} is not registered"
     v = impl(name, a, b)
     if name in DOC and 0 <= a <= 1 and 0 <= b <= 1:
         fa, fb = Fr(a), Fr(b)
@@ -141,6 +144,25 @@ def oracle_(case):
                 return False, (f"{name} on {dt.__name__} arrays of the degrees ({a}, {b}) gives {low!r}, on the same degrees as "
                                f"float64 {exp!r}")
     return True, "ok"
+
+
+def oracle_layouts(case):
+    """the norm on the same degrees held in arrays of every layout / size / container (fv/layouts.py)"""
+    name = case["norm"]
+    n = norms_cache()[name]
+    return L.check_elementwise2(lambda a, b: n.compute(a, b), case["as"], case["bs"], f"norm {name}",
+                                scalar=lambda a, b: impl(name, a, b), long=bool(case.get("long")))
+
+
+def layout_cases(ctx):
+    rng = ctx.rng
+    for name in sorted(norms_cache()):
+        yield {"norm": name, "as": [0.0, 0.25, 0.5, 1.0, 0.75, 0.375, 1.0, 0.0], "bs": [1.0, 0.5, 0.5, 0.25, 0.0, 0.375, 1.0, 0.0], "long": True}
+        yield {"norm": name, "as": [math.nan, 0.25, 1.0, 0.0, 0.5, 0.75], "bs": [0.5, math.nan, 1.0, 0.0, 0.0, 1.0]}
+        for _ in range(ctx.scale(2, 30)):
+            k = rng.choice([6, 8, 12])
+            yield {"norm": name, "as": [rng.choice([0.0, 1.0, rng.random()]) for _ in range(k)],
+                   "bs": [rng.choice([0.0, 1.0, rng.random()]) for _ in range(k)]}
 
 
 def grid(n):
@@ -212,6 +234,13 @@ def correspond(ctx):
             mism.append({"case": {"norm": name, "a": a, "b": b}, "violation": True, "detail": detail, "what": detail})
             if len(mism) > 20:
                 break
+    # the same degrees held in arrays of every memory layout, container and size
+    for case in layout_cases(ctx):
+        ok, detail = oracle(case)
+        st.count("layouts")
+        if not ok:
+            mism.append({"case": case, "violation": True, "detail": detail, "what": detail})
+            break
     # associativity / monotonicity of the implementation on the coarse grid (supporting exploration)
     g = grid(8)
     for name, n in norms_cache().items():
@@ -241,6 +270,10 @@ def correspond(ctx):
 def search(ctx):
     """failing-input search on the real code (used when a theorem or the tie stops checking)"""
     out = []
+    for case in layout_cases(ctx):
+        ok, d = oracle(case)
+        if not ok:
+            return [(case, d)]
     g = grid(64)
     for name in sorted(norms_cache()):
         for a in g:
